@@ -54,6 +54,22 @@ PROPS["C10"] = {
     "assumptions": ["allocation request/response plumbing (Inner::allocate_channel, IoLoopHandle0) is "
                     "covered by the core and end-to-end drivers, not by this one"],
 }
+PROPS["C15"] = {
+    "check_mods": ["C15"],
+    "model_out": "model_out",
+    "drivers": [{"name": "c15", "n_quick": 4000, "n_thorough": 300000}],
+    "rule": "every pair from an 18-value (u16) / 19-value (u32) boundary set for each field (0, 1, "
+            "4095/4096/4097, powers of two, maxima ...) with the other fields fixed, then seeded random "
+            "sextuples (2/3 boundary values). Every case is non-trivial (a full negotiation); distinct = "
+            "distinct sextuple.",
+    "explanation": "C15_negotiation / C15_floor over all 2^96 inputs by lia (no enumeration); "
+                   "C15_frame_min pins the regenerated constant. The real make_tune_ok is called through "
+                   "the cfg-guarded facade; results must equal the model's and satisfy the documented "
+                   "negotiation computed independently with the literal 4096.",
+    "trusted_base": [],
+    "assumptions": ["the plumbing from TuneOk to channel table, frame splitter and heartbeat timers is "
+                    "checked by C10 / C02 / C17 and by the end-to-end driver"],
+}
 
 # properties not claimed, with the reason (kept current)
 NOT_APPLICABLE = {}
